@@ -127,6 +127,8 @@ class SnapshotActionContext(FrameCollectorContext, ActionContext):
             context = LogActionContext(self.trigger_context, LocationAction(self.location_action.id, None, {
                 LOG_MSG: log_msg,
             }, LocationAction.ActionType.Log))
+            # the log is part of this snapshot, so its variables must be collected into the same variable set
+            context.var_cache = self.var_cache
             log, watches, log_vars = context.process_log(log_msg)
             snapshot.log_msg = log
             for watch in watches:
